@@ -1613,6 +1613,39 @@ cannot checkpoint user %u's queue", u);
 checkpointed user %u", u);
 		}
 	}
+	/* users who own no task any more have not come by in the walk above
+	 * and the list of users with changes has long been full, so go by
+	 * what is in the spool: queue files of such users still hold what
+	 * they have cancelled */
+	with (int dfd = dup(qdirfd)) {
+		DIR *qd;
+
+		if (UNLIKELY(dfd < 0)) {
+			rc = -1;
+			break;
+		} else if (UNLIKELY((qd = fdopendir(dfd)) == NULL)) {
+			close(dfd);
+			rc = -1;
+			break;
+		}
+		rewinddir(qd);
+		for (struct dirent *de; (de = readdir(qd)) != NULL;) {
+			unsigned int u;
+			int n = 0;
+
+			if (sscanf(de->d_name, "echsq_%u.ics%n", &u, &n) < 1 ||
+			    !n || de->d_name[n]) {
+				/* not a queue file */
+				continue;
+			} else if (seenp(&sntr, (uid_t)u) != -1) {
+				/* done above */
+				continue;
+			} else if (chkpnt1((uid_t)u) < 0) {
+				rc = -1;
+			}
+		}
+		closedir(qd);
+	}
 	free(snds);
 	return rc;
 }
